@@ -1064,6 +1064,29 @@ func TestVerifC05(t *testing.T) {
 // ---- C12 -----------------------------------------------------------------------------
 
 func oracleC12(c *aggCase, s *Snapshot, level Similarity, a *Aggregated) *h.Viol {
+	if v := oracleC12Core(s, level, a, ""); v != nil {
+		return v
+	}
+	// the same goroutines as a race report's (an address and an access kind on each):
+	// the aggregation has no business looking at those; small cases, first arrival order
+	if len(c.idx) <= 3 && c.first == 0 && (len(c.perm) < 2 || c.perm[0] == 0) {
+		rs := c.snapshot()
+		for i, g := range rs.Goroutines {
+			g.RaceAddr, g.RaceWrite = 0xc000014100+uint64(i), i%2 == 0
+		}
+		ra, p := safeAggregate(rs, level)
+		if p != "" {
+			return &h.Viol{Fingerprint: "C12/race-snapshot:panic", Summary: "Aggregate on the same goroutines with race fields set panicked: " + firstLine(p)}
+		}
+		if v := oracleC12Core(rs, level, ra, ":race-snapshot"); v != nil {
+			v.Summary = "the same goroutines with race fields set: " + v.Summary
+			return v
+		}
+	}
+	return nil
+}
+
+func oracleC12Core(s *Snapshot, level Similarity, a *Aggregated, tag string) *h.Viol {
 	byID := map[int]*Goroutine{}
 	for _, g := range s.Goroutines {
 		byID[g.ID] = g
@@ -1094,7 +1117,7 @@ func oracleC12(c *aggCase, s *Snapshot, level Similarity, a *Aggregated) *h.Viol
 			case strings.Contains(msg, "state"):
 				cat = "state"
 			}
-			return &h.Viol{Fingerprint: "C12/" + cat, Summary: fmt.Sprintf("bucket %d (ids %v) at %s: %s", bi, b.IDs, levelNames[level], msg), Observed: describeBuckets(a)}
+			return &h.Viol{Fingerprint: "C12/" + cat + tag, Summary: fmt.Sprintf("bucket %d (ids %v) at %s: %s", bi, b.IDs, levelNames[level], msg), Observed: describeBuckets(a)}
 		}
 	}
 	return nil
